@@ -111,6 +111,13 @@ func boundary() [][2]string {
 			"restart",
 			"commit",
 			"tx u2 hi call;c;set;7;999;- call;c;set;0;-999;- call;c;del;7;0;- call;c;set;7;1;-",
+			"tx u2 hi call;p;set;1;0;-",
+			"tx u2 hi add;p call;p;set;2;0;-",
+			"commit",
+			"restart",
+			"tx u0 hi call;p;set;1;0;- call;p;fail;0;0;-",
+			"tx u0 hi call;p;set;0;0;- call;p;sum;0;0;-",
+			"tx u1 hi call;p;set;5;0;- call;p;inc;1;1;-",
 			"commit",
 		)},
 	}
@@ -153,6 +160,9 @@ func genMsg(r *kit.Rand, s *shadow) (string, bool) {
 	switch {
 	case x < 52: // a realm call
 		sl := kit.Pick(r, slots)
+		if r.Chance(12) {
+			sl = 'p' // the params realm: set 0..2 rewrites an auth parameter (accounts are touched)
+		}
 		k := r.Intn(8)
 		fn := kit.Pick(r, []string{"set", "set", "set", "inc", "inc", "del", "sum"})
 		dep := "-"
@@ -200,7 +210,7 @@ func genMsg(r *kit.Rand, s *shadow) (string, bool) {
 		}
 		return fmt.Sprintf("send;%s;%d;u", user(r), kit.Pick(r, []int{1, 1000000, r.Range(1, 1000000)})), false
 	default: // deployments
-		sl := kit.Pick(r, []byte{'a', 'b', 'c', 'h', 'h'})
+		sl := kit.Pick(r, []byte{'a', 'b', 'c', 'h', 'h', 'p'})
 		fail := s.dep[sl] || (sl == 'h' && !(s.dep['a'] && s.dep['b']))
 		if !fail {
 			s.dep[sl] = true
@@ -280,6 +290,9 @@ func randomHistory(w *kit.Out, r *kit.Rand, blocks, maxTx int, restartPct int) {
 			}
 		}
 	}
+	if r.Chance(60) {
+		order = append(order, 'p')
+	}
 	for _, sl := range order {
 		if r.Chance(15) {
 			continue
@@ -318,7 +331,7 @@ func malformed(w *kit.Out, r *kit.Rand, n int) {
 		"tx u0 hi send;x0;5;u", "tx u0 hi send;u1;0;u", "tx u0 hi send;u1;1000001;u", "tx u0 hi send;u1;5;g", "tx u0 hi send;u1;05;u",
 		"tx u0 hi run;xx;1;1", "tx u0 hi run;ab;1", "tx u0 hi run;ab;9;1", "tx u0 hi add;a add;b add;c add;h add;a",
 		"probe", "probe u0 999999 add;a", "probe u0 300000000 add;a", "probe u0 hi add;a", "probe u3 1000000 add;a",
-		"probe u0 1000000", "probe u0 1000000 add;a add;b add;c add;h", "probe u0 01000000 add;a", "tx u0 hi call;a;grab;1;1;-",
+		"probe u0 1000000", "probe u0 1000000 add;a add;b add;c add;h", "probe u0 01000000 add;a", "tx u0 hi call;a;grab;1;1;-", "tx u0 hi call;p;both;1;1;-", "tx u0 hi call;p;set;1;1;d", "tx u0 hi add;q",
 		"commit now", "restart 1", "begin", "COMMIT", "tx u0 hi ;", "tx u0 hi call;;;;;",
 	}
 	for i := 0; i < n; i++ {
